@@ -579,7 +579,34 @@ def r9_flags_are_written_as_given(ctx):
            '%d `key = value` emission templates scanned in pavex_macros' % n)
 
 
+def r10_setters_overwrite(ctx):
+    ctx.rule('C19.R10', 'P3 who-may-call: the blueprint builders record a setting by overwriting: every write to a keyed field of a registered component '
+             '(the `lints` map) inside pavex::blueprint is `insert` — never `entry(..).or_insert*`, `try_insert`, or a guard on `contains_key`, '
+             'which keep the FIRST value of an overriding call sequence (`.allow(L).deny(L)` must persist `deny`). Positive control: the '
+             'overwriting writes themselves.')
+    FIRST_WINS = {'or_insert', 'or_insert_with', 'or_insert_with_key', 'or_default', 'try_insert', 'entry', 'contains_key', 'get_or_insert_with'}
+    n_ins, bad = 0, []
+    for b in ctx.fb.bodies('pavex'):
+        if b.is_promoted or 'pavex::blueprint::' not in b.nid:
+            continue
+        for bb, t in b.calls():
+            c = callee(t) or ''
+            m = c.split('::')[-1]
+            if not (t['aty'] and ('BTreeMap<' in t['aty'][0] or 'HashMap<' in t['aty'][0] or 'Entry<' in t['aty'][0]) and 'pavex_bp_schema::' in t['aty'][0]):
+                continue
+            if m == 'insert':
+                n_ins += 1
+            elif m in FIRST_WINS:
+                bad.append((b, bb, t, m))
+    for b, bb, t, m in bad:
+        ctx.ob('C19.R10', 'first-wins-write|%s|%s' % (b.nroot.replace('pavex::blueprint::', ''), m), False, b.loc(bb, t),
+               '`%s` on %s in %s: an earlier call of the same setter is kept and the later one ignored' % (m, t['aty'][0][:90], b.nroot.split('::')[-1]))
+    ctx.floor('C19.R10', 'overwriting writes (`insert`) to keyed component fields in pavex::blueprint', n_ins, 1)
+    ctx.ob('C19.R10', 'setters-overwrite', not bad, '', '%d insert(s), %d first-wins write(s) on keyed component fields' % (n_ins, len(bad)))
+
+
 def check(ctx):
+    r10_setters_overwrite(ctx)
     r9_flags_are_written_as_given(ctx)
     r8_blueprint_file_is_current(ctx)
     r1_schema_symmetry(ctx)
